@@ -153,7 +153,10 @@ void vp_rec_limit(void) { VP_ASSERT(0, "VP bound: init_bucket recursed deeper th
 
 /* ---- history */
 enum { OP_NONE = 0, OP_INSERT = 1, OP_FIND = 2, OP_TRAVERSE = 3, OP_COUNT = 4 };
-#define MAXSEEN 8
+#ifndef NV
+#define NV 4
+#endif
+#define MAXSEEN (NV + 1)
 struct op { int used, kind, done, ok; int key, itkey; unsigned inv, res; int nseen; int seen[MAXSEEN]; } H[3][2];
 unsigned clk;
 void vp_op_begin(u32 tid, u32 slot, u32 kind, u32 key) { struct op* o = &H[tid][slot]; o->used = 1; o->kind = kind; o->key = key; o->inv = ++clk; }
@@ -169,6 +172,8 @@ static int ins_done_before(int k, unsigned t) { int c = 0; for (int a = 0; a < N
 static int ins_begun_before(int k, unsigned t) { int c = 0; for (int a = 0; a < NT; a++) for (int s = 0; s < 2; s++) { struct op* o = &H[a][s]; if (o->used && o->kind == OP_INSERT && o->key == k && o->inv < t) c++; } return c; }
 static int ins_ok(int k) { return ins_done_before(k, ~0u); }
 
+static const int KEYS[10] = { PRE0, PRE1, PRE2, PRE3, KA0, KA1, KB0, KB1, KC0, KC1 };   /* all keys of the scenario (constants) */
+static u64 sok_of(int v) { u64 r = 0; for (int x = 0; x < 10; x++) if (KEYS[x] == v) r = vp_key_regular(vp_hash(KEYS[x])); return r; }
 /* every node ever created: head + value nodes + dummy nodes */
 #define MAXN (1 + NV + ND)
 static const u8 PARENT[BCMAX] = { 0, 0, 0, 1, 0, 1, 2, 3 };
@@ -241,8 +246,7 @@ int main(void) {
   VP_ASSERT(ndummy == nbuckets, "a dummy node is in the list that no bucket entry refers to (bucket initialised twice)");
   /* ---- C/D. content == pre-state + successful inserts; unique container: no duplicates, one winner */
   /* all keys of the scenario are compile-time constants: count each in the list */
-  { static const int KEYS[10] = { PRE0, PRE1, PRE2, PRE3, KA0, KA1, KB0, KB1, KC0, KC1 };
-    int total = 0;
+  { int total = 0;
     for (int x = 0; x < 10; x++) {
       int k = KEYS[x], first = 1;
       for (int y = 0; y < x; y++) if (KEYS[y] == k) first = 0;
@@ -279,26 +283,25 @@ int main(void) {
 #endif
       VP_ASSERT(o->ok >= lo && o->ok <= hi, "count() outside [completed inserts, started inserts]");
     } else if (o->kind == OP_TRAVERSE) {
-      /* each key: seen at least as often as it was present before the traversal began, at most as often as inserts had begun */
-      for (int x = 0; x < o->nseen; x++) {
-        int kk = o->seen[x], cs = 0;
-        for (int y = 0; y < o->nseen; y++) cs += (o->seen[y] == kk);
-        int hi = npre_of(kk) + ins_begun_before(kk, o->res);
+      /* per (constant) key of the scenario: seen at least as often as it was present before the traversal began, at most as often
+         as inserts of it had begun before the traversal ended; nothing else is seen; visiting order = list order */
+      int total = 0;
+      for (int x = 0; x < 10; x++) {
+        int kk = KEYS[x], first = 1;
+        for (int y = 0; y < x; y++) if (KEYS[y] == kk) first = 0;
+        if (!first) continue;
+        int cs = 0;
+        for (int y = 0; y < MAXSEEN; y++) cs += (y < o->nseen && o->seen[y] == kk);
+        total += cs;
+        int lo = npre_of(kk) + ins_done_before(kk, o->inv), hi = npre_of(kk) + ins_begun_before(kk, o->res);
 #if !MULTI
-        if (hi > 1) hi = 1;
+        if (lo > 1) lo = 1; if (hi > 1) hi = 1;
 #endif
         VP_ASSERT(cs <= hi, "traversal saw an element twice / an element nobody inserted");
-        if (x > 0) VP_ASSERT(vp_key_regular(vp_hash(o->seen[x - 1])) <= vp_key_regular(vp_hash(kk)), "traversal not in list order");
-      }
-      for (int j = 0; j < nv; j++) {
-        int kk = vals[j], cs = 0;
-        for (int y = 0; y < o->nseen; y++) cs += (o->seen[y] == kk);
-        int lo = npre_of(kk) + ins_done_before(kk, o->inv);
-#if !MULTI
-        if (lo > 1) lo = 1;
-#endif
         VP_ASSERT(cs >= lo, "traversal missed an element that was present before it began");
       }
+      VP_ASSERT(total == o->nseen, "traversal saw a value nobody inserted");
+      for (int y = 1; y < MAXSEEN; y++) if (y < o->nseen) VP_ASSERT(sok_of(o->seen[y - 1]) <= sok_of(o->seen[y]), "traversal not in list order");
     }
   }
   /* ---- E/F. the public sequential view agrees with the raw list */
